@@ -102,7 +102,9 @@ fn step_body(kind: u8, own: usize, d: [u8; N], allow: u8) -> usize {
     if may(4) {
         vs::assume(!t0.reaches(t0.fin, 3));
     }
-    let pre = Present { notar: !may(0), nf: [false, !may(1), vs::any_bool()], skip: !may(2), ff: !may(3), fin: !may(4) };
+    // (the notar-fallback certificate of the *other* block is present: with a symbolic one the
+    // `is_notar_fallback(A)` scan over the certificate list does not fold and the creation code runs)
+    let pre = Present { notar: !may(0), nf: [false, !may(1), true], skip: !may(2), ff: !may(3), fin: !may(4) };
 
     // --- real pre-state ----------------------------------------------------------------------
     let fx = fixture(&stakes, own);
@@ -131,6 +133,12 @@ fn step_body(kind: u8, own: usize, d: [u8; N], allow: u8) -> usize {
     if pre.fin {
         st.add_cert(dummy_vote_cert(&fx, 4, 0));
     }
+
+    // safe-to-notar / safe-to-skip for this slot were already signalled (a reachable state): their
+    // evaluation is C06's subject, and left symbolic it dominates the cost of a notar vote (measured)
+    st.sent_safe_to_notar.insert(block_hash(1));
+    st.sent_safe_to_notar.insert(block_hash(2));
+    st.sent_safe_to_skip = true;
 
     // --- the step ------------------------------------------------------------------------------
     let vote = mk_vote(&fx, 0, kind, hash);
